@@ -111,7 +111,7 @@ func (c *Check) writeEvidence(wall time.Duration, violations, known int) {
 		"violations": violations,
 	}
 	b, _ := json.MarshalIndent(ev, "", " ")
-	dir := filepath.Join(verifDir, "evidence")
+	dir := filepath.Join(artifactDir, "evidence")
 	os.MkdirAll(dir, 0o755)
 	if err := os.WriteFile(filepath.Join(dir, c.prop+".json"), b, 0o644); err != nil {
 		fmt.Fprintln(os.Stderr, "cannot write evidence:", err)
